@@ -25,6 +25,7 @@ func init() {
 			"C11.R1q queueing function: one send of the parameter on the chan func() field is followed by exactly one receive from the chan error field on every path",
 			"C11.R2 confinement: handler-side interface calls on the data source whose implementations (transitively) write a field that core-loop-reachable code accesses must sit in a request closure, in the start phase (not reachable from the `go` statement that starts the core loop) or after the run-done WaitGroup.Wait",
 			"C11.R2s the receiver of the chan func() calls the received closure synchronously and calls block processing synchronously in the same function",
+			"C11.R3 guard dominance (E6): forward taint from the arguments of request handlers through calls, closures, returns, request-written fields (outside per-channel types), channel messages and client-keyed maps; every index / slice bound / make size / divisor fed by such a value needs 0 <= v and v < len proven from dominating branch conditions, range loops, completed validation loops and derived equal-length invariants, in the function itself or at every place that supplies the value (call sites, closure creation, send sites, field stores, map insertions)",
 			"C11.R4 mortal peer: the hand-off send must be a select arm with an alternative; the active flag is set true only on the success branch of the start call; handlers test the flag before calls that block on per-block goroutines",
 			"C11.R6 lock re-entrancy: no call made while a mutex field is held reaches a Lock of the same mutex of the same object (self-deadlock inside the core loop)",
 			"C11.R7 a pulse-length request never leaves projectors installed for another record length (the next record would panic the block-processing goroutine): same path rule as C13.R2",
@@ -50,6 +51,7 @@ func runC11(p *Prog, r *Report) {
 	r.MinInstances["C11.R1"] = 11
 	r.MinInstances["C11.R2"] = 5
 	r.MinInstances["C11.R5"] = 11
+	r.MinInstances["C11.R3"] = 25
 	r.Notes = append(r.Notes, fmt.Sprintf("anchors: controller=%s request channel field=%s result channel field=%s queueing function=%s; %d request closures from %d call sites; %d RPC handlers",
 		rv.Ctl.Obj().Name(), rv.ReqField, rv.ResField, FuncName(rv.Queue), len(rv.Closures), len(rv.CallSites), len(rv.Handlers)))
 	for _, cs := range rv.Unresolved {
